@@ -144,7 +144,7 @@ def ts_to_string(ts):
     return ''.join(out)
 
 
-_TOK = re.compile(r"\s*(?:(?P<id>[A-Za-z_][A-Za-z0-9_]*)|(?P<lt>'[A-Za-z_][A-Za-z0-9_]*)|(?P<num>\d\w*(?:\.\d\w*)?)|(?P<str>\"(?:[^\"\\]|\\.)*\")|(?P<p>[~@#$%^&*\-+=|:;,.<>?/!])|(?P<open>[(\[{])|(?P<close>[)\]}]))")
+_TOK = re.compile(r"\s*(?:(?P<str>(?:b?\"(?:[^\"\\]|\\.)*\")|(?:b?r#\"[^\"]*\"#)|(?:b?r\"[^\"]*\")|(?:b?'(?:\\.|[^\\'])'))|(?P<id>[A-Za-z_][A-Za-z0-9_]*)|(?P<lt>'[A-Za-z_][A-Za-z0-9_]*)|(?P<num>\d\w*(?:\.\d\w*)?)|(?P<p>[~@#$%^&*\-+=|:;,.<>?/!])|(?P<open>[(\[{])|(?P<close>[)\]}]))")
 
 
 def tokenize(s, origin=None):
@@ -158,7 +158,9 @@ def tokenize(s, origin=None):
         if not m:
             raise ValueError('cannot tokenize %r at %d' % (s, pos))
         pos = m.end()
-        if m.group('id'):
+        if m.group('str'):
+            stack[-1].append(TLit(m.group('str'), origin))
+        elif m.group('id'):
             stack[-1].append(TIdent(m.group('id'), origin))
         elif m.group('lt'):
             stack[-1].append(TPunct("'", True, origin)); stack[-1].append(TIdent(m.group('lt')[1:], origin))
